@@ -20,7 +20,7 @@ mode ..."; "different mode, same tonic"), which differs only when exactly one si
 """
 from mc.spec.beat import Undefined
 
-LITERAL_TABLE = True
+LITERAL_TABLE = False
 
 LETTER = {"c": 0, "d": 2, "e": 4, "f": 5, "g": 7, "a": 9, "b": 11}
 MODES = ("major", "minor", "other")
